@@ -200,9 +200,11 @@ class AssociationAcceptor(socketserver.StreamRequestHandler, Association):
         user_items = assoc_req.variable_items[-1]
         max_pdu_sub_item = user_items.user_data[0]
         # zero means that requestor does not limit length of PDUs it receives
-        if 0 < max_pdu_sub_item.maximum_length_received < self.max_pdu_length:
+        local_max_pdu_length = self.max_pdu_length
+        if 0 < max_pdu_sub_item.maximum_length_received < (self.max_pdu_length or 2 ** 32):
             self.max_pdu_length = max_pdu_sub_item.maximum_length_received
-        max_pdu_sub_item.maximum_length_received = self.max_pdu_length
+        max_pdu_sub_item.maximum_length_received = \
+            self.max_pdu_length if local_max_pdu_length else 0
 
         # analyse proposed presentation contexts
         rsp = [assoc_req.variable_items[0]]
@@ -390,7 +392,7 @@ class AssociationRequester(Association):
         user_data = response.variable_items[-1].user_data
         try:
             max_pdu_length = user_data[0].maximum_length_received
-            if max_pdu_length and self.max_pdu_length > max_pdu_length:
+            if max_pdu_length and (self.max_pdu_length or 2 ** 32) > max_pdu_length:
                 self.max_pdu_length = max_pdu_length
         except IndexError:
             pass
